@@ -1,3 +1,3 @@
 SPECIFICATION Spec
-INVARIANTS TypeOK Conforms Complete SeedsOK
+INVARIANTS TypeOK ParamsOK Conforms Complete SeedsOK
 CHECK_DEADLOCK FALSE
